@@ -107,7 +107,13 @@ def call(ex, st, fn, args, kw, node):
             return
         raise Unsupported("decimal.Decimal(%r)" % (v,))
     if name in ("max", "min") and len(args) == 2 and all(isinstance(lift_or_none(a), Sym) for a in args):
-        a, b = lift(args[0]), lift(args[1])
+        def payload(v):
+            v = lift(v)
+            if v.ty.kind == "opt":
+                if feasible(st.pc, sort_of(v.ty).is_none(v.z)): raise Unsupported("max/min of a value that may be None")
+                return opt_payload(v)
+            return v
+        a, b = payload(args[0]), payload(args[1])
         if a.ty.kind == "int" and b.ty.kind == "int":
             if not isinstance(args[0], Sym) and not isinstance(args[1], Sym): yield st, (max if name == "max" else min)(args[0], args[1]); return
             c = (a.z >= b.z) if name == "max" else (a.z <= b.z)
